@@ -338,6 +338,12 @@ UnmarshalEv(e) ==
     /\ Chk(e, "C05", "consumes_whole_frame", (wf /\ okc) => (o.n = spec.n /\ o.ch = spec.ch))
     /\ Chk(e, "C05", "reference_values", (wf /\ okc) => SameDecoded(spec.f, o.f))
     /\ Chk(e, "C13", "no_validation_on_receive", wf => (okc /\ o.n = spec.n /\ SameDecoded(spec.f, o.f)))
+    \* (the driver says: b is a strict prefix of the valid frame e.full -- re-decided here)
+    /\ (IF "full" \in DOMAIN e
+        THEN /\ Premise(e, "is_strict_prefix_of_one_valid_frame",
+                        LET u == Unmarshal(e.full) IN u.k = "frame" /\ u.n = Len(e.full) /\ Len(b) < Len(e.full) /\ Take(e.full, Len(b)) = b)
+             /\ Chk(e, "C07", "prefix_raises_only_UnmarshalingException", o.r = "exc" /\ o.lib /\ o.type = "UnmarshalingException")
+        ELSE TRUE)
     /\ Chk(e, "C06", "envelope_truth", okc => EnvelopeTruth(b, o))
     /\ Chk(e, "C06", "valid_frame_decoded_exactly",
            wf => (okc /\ o.n = spec.n /\ o.ch = spec.ch /\ SameDecoded(spec.f, o.f)))
